@@ -1,22 +1,54 @@
-"""C04 - no task starts before its prerequisites; a join runs exactly once (component level).
+"""C04 - no task starts before its prerequisites; a join runs exactly once (component level + engine oracle).
 
 Ties the Coq models to the REAL code of /repo (never re-implementations):
-  Model/Join.v     possible_route / induced / logical / logical_task_state / affected
+  Model/Join.v     possible_route(_top) / induced / logical / logical_task_state / affected
      vs DirectWorkflowController._possible_route / _get_induced_join_state / _get_join_logical_state /
         get_logical_task_state / find_indirectly_affected_task_executions, instantiated on specs parsed by
         mistral.lang.parser from generated YAML, with _get_task_executions served from generated rows
-  Model/Reverse.v  candidates / satisfied / next_tasks
-     vs ReverseWorkflowController._find_task_specs_with_satisfied_dependencies / _is_satisfied_task
-  Model/JoinProto.v (check - lock - re-check - insert)  vs the REAL Task.defer run by several creators against a real
-     DB, the unique constraint on task_executions_v2.unique_key, and Gen/Locks.v extracted from the source
-Oracles (no model involved): a join reported RUNNING has >= k inbound rows that are completed and list it in next_tasks;
-ERROR only if k can no longer be reached (independent worklist search) and never an exception where the property
-prescribes RUNNING/ERROR; WAITING only while k is still reachable; reverse: every returned task has all its requires
-SUCCESS, has no row, lies in the requires-closure of the target, no duplicates; engine runs under the deterministic
-driver: one row per join, children created once, only after k inbound completed and routed, no join left WAITING at
-quiescence.
+        (suites join_corpus, join; the generator's reading of on-clauses / task-defaults / requires is itself compared
+        with wf_spec.find_outbound_task_names / get_task_requires, its validity prediction with the real validator)
+  Model/Reverse.v  candidates / satisfied / next_tasks / rrun
+     vs ReverseWorkflowController._find_task_specs_with_satisfied_dependencies / _is_satisfied_task (suites reverse,
+        reverse_run: whole runs of continue / state-change operations)
+  Model/JoinProto.v (check - lock - re-check - act, guards from Gen/Locks.v)
+     vs the REAL bodies of Task.defer and task_handler._refresh_task_state, one thread per transaction, every DB call
+        a scheduling point, over an in-memory store with READ COMMITTED / REPEATABLE READ reads, named locks held to
+        the end of the transaction and an optional unique constraint (suite proto: final count and the program
+        counter of every transaction after each generated schedule)
+  Model/JoinLife.v on_trigger (re-arm flags from Gen/Locks.v) vs the real Task.defer on an existing execution of every
+     state, in a definition with / without a cycle through the join (suite defer_decision)
+Oracles (no model involved):
+  direct    a join reported RUNNING has >= k inbound rows that are completed and list it in next_tasks; ERROR only if
+            k can no longer be reached and WAITING only while it can (independent worklist fixpoint); an exception
+            where RUNNING/ERROR is prescribed = the join stays WAITING forever; completion of a task refreshes exactly
+            the join executions that depend on it
+  reverse   every returned task has all its requires SUCCESS, has no execution, lies in the requires-closure of the
+            target, no duplicates, nothing needed and satisfied is left out
+  proto     under READ COMMITTED and the schema's own unique constraint: <= 1 join row per key, <= 1 start per join
+            execution at every moment of every schedule, exactly 1 when all transactions finished
+  engine    whole engine under harness/engine_driver.py (generated fork/join definitions incl. nested joins, joins fed
+            by on-error / on-complete / task-defaults, conditional routes that fire or not; seeded schedules): one
+            row per join, one action execution per join, first start only with >= k inbound tasks completed and
+            routed, failure without running only when k is unreachable, no join WAITING at quiescence.  Joins of
+            definitions with cycles and runs where a task with several inbound transitions executed more than once
+            are checked for row uniqueness only (the code keeps one execution per task name, see its TODOs).
+`engine_traces` is the placeholder for the lead's trace-correspondence suite and is called last.
 
-Self-test (scratch worktree, each gave VIOLATION): see MUTATIONS at the end of this docstring block.
+Self-test: mutations of /repo HEAD fd32502d in a scratch worktree, `VERIF_REPO=<wt> ./check C04` (quick, seed 0); every one
+gave VIOLATION lines with a concrete failing input (signature of the first one given):
+  M1  direct_workflow._get_join_logical_state: `runnings >= cardinality` -> `>`            join-not-started
+  M2  _get_induced_join_state: "not triggered" -> WAITING instead of ERROR                 join-waits-forever
+  M3  _possible_route: drop the `visited` test (revert of fix 80b093e7)                    join-stuck:unbounded-recursion-in-possible-route
+  M4  task_handler._refresh_task_state: drop the state check after the lock               join-started-twice (+ theorem C04_join_starts_once broken)
+  M5  reverse_workflow._is_satisfied_task: any completed state counts as SUCCESS           reverse-starts-before-requires
+  M6  find_indirectly_affected_task_executions: direct successors only                     join-not-refreshed
+  M8  _get_join_logical_state: `errors > total - N` -> `>=`                                join-fails-while-reachable
+  M9  tasks.Task.defer: drop `_can_be_reentered()` (revert of fix 1c5aca86)               partial-join-rerun-by-late-branch
+  M10 _get_induced_join_state: a RUNNING inbound task no longer induces WAITING            join-fails-while-reachable
+  M11 reverse_workflow._is_satisfied_task: only RUNNING rows count as existing             reverse-task-started-again
+  M12 tasks.Task.defer: drop the re-read inside the lock                                   join-waits-forever:engine (duplicate-key errors) + proto disagreement
+  M7  models.TaskExecution: drop UniqueConstraint('unique_key')                            theorem C04_join_row_once broken; no failing input under
+                                                                                           READ COMMITTED (the lock + re-read still hold): no-failing-input-found
 """
 import json
 import re
@@ -1646,12 +1678,12 @@ TWO_OF_THREE = {'order': ['t0', 't1', 't2', 't3', 't4'], 'defaults': None, 'task
 CORPUS_ENGINE = [(DISCRIMINATOR, {}, [3, 5, 8, 1]), (TWO_OF_THREE, {'t2': 'err'}, [3, 8, 0])]
 
 
-def suite_engine_oracle(ctx):
+def suite_engine_oracle(ctx, n_specs=None):
     import random as _random
     from harness import engine_driver as ed
     rng = ctx.rng
     d = ed.Driver('legacy', ctx.seed)
-    n_specs = ctx.n(16, 160)
+    n_specs = n_specs or ctx.n(16, 160)
     dist = ctx.cov['suites'].setdefault('engine', {'evaluations': 0, 'distinct_nontrivial': 0})
     finals = dist.setdefault('final_wf_states', {})
     jstates = dist.setdefault('final_join_states', {})
@@ -1771,23 +1803,24 @@ def oracle_affected(ctx, case, impl):
 
 
 def search(ctx):
-    """Widened oracle-only search for a failing input (no model involved)."""
-    oracle_only_direct(ctx, [dict(c) for c in CORPUS_DIRECT] + gen_direct_cases(ctx, 3000))
+    """Widened oracle-only search for a failing input (no model involved), bounded to a few minutes."""
+    import time
+    t0 = time.time()
+    budget = 300 if ctx.tier == 'quick' else 900
+    oracle_only_direct(ctx, [dict(c) for c in CORPUS_DIRECT])
+    while time.time() - t0 < budget * 0.35 and not ctx.failures:
+        oracle_only_direct(ctx, gen_direct_cases(ctx, 300))
     rng = ctx.rng
-    for _ in range(2000):
-        spec = gen_reverse_spec(rng, rng.choice(['dag', 'dag', 'cyclic']))
-        rows = gen_rev_rows(rng, spec, rng.choice(['run', 'run', 'random']))
-        text = rev_yaml(spec)
-        impl = reverse_impl(spec, text, rows)
-        if impl['next'][0] == 'ok' and impl['validated']:
-            oracle_reverse(ctx, spec, text, rows, impl['next'][1])
-    if not ctx.failures:
-        saved = ctx.tier
-        ctx.tier = 'thorough'
-        try:
-            suite_engine_oracle(ctx)
-        finally:
-            ctx.tier = saved
+    while time.time() - t0 < budget * 0.5 and not ctx.failures:
+        for _ in range(300):
+            spec = gen_reverse_spec(rng, rng.choice(['dag', 'dag', 'cyclic']))
+            rows = gen_rev_rows(rng, spec, rng.choice(['run', 'run', 'random']))
+            text = rev_yaml(spec)
+            impl = reverse_impl(spec, text, rows)
+            if impl['next'][0] == 'ok' and impl['validated']:
+                oracle_reverse(ctx, spec, text, rows, impl['next'][1])
+    while time.time() - t0 < budget and not ctx.failures:
+        suite_engine_oracle(ctx, n_specs=12)
 
 
 def replay(obj):
